@@ -117,10 +117,20 @@ def api_strategy(tier):
         return {"writer": draw(st.sampled_from(sorted(WRITERS))),
                 "set": {"langs": langs, "styles": styles, "layout": draw(st.one_of(st.none(), lay))},
                 "opts": opts, "meta_attr": meta_attr}
-    return build()
+
+    @st.composite
+    def with_history(draw):
+        case = draw(build())
+        if draw(st.integers(0, 2)) == 0:
+            prev = draw(build())["set"]
+            if draw(st.booleans()):
+                prev["styles"]["p"] = {"color": "white", "italics": True}
+            case["prev"] = prev
+        return case
+    return with_history()
 
 
-def _write(wname, cs, opts):
+def _write(wname, cs, opts, prev=None):
     cls = WRITERS[wname]
     kw = {}
     if wname != "legacy":
@@ -128,6 +138,12 @@ def _write(wname, cs, opts):
                   video_width=opts.get("vw"), video_height=opts.get("vh"),
                   write_inline_positioning=opts.get("inline", False))
     w = cls(**kw)
+    if prev is not None:
+        # the writer object has written another caption set before
+        try:
+            w.write(prev)
+        except Exception:  # noqa
+            pass
     if opts.get("force"):
         return w.write(cs, force=opts["force"])
     return w.write(cs)
@@ -211,8 +227,16 @@ def check_api(case, rec):
         rec.excluded_known("dfxp-style-id-collides-with-region-id")
         return
     cs = model.to_pycaption(m)
+    prev = None
+    if case.get("prev"):
+        if rec.is_open("dfxp-attribute-values-not-escaped") and any(
+                ch in s_ for s_ in _attr_strings(case["prev"]) for ch in META_CHARS):
+            prev = None
+        else:
+            prev = model.to_pycaption(case["prev"])
+            rec.label("reused-writer")
     try:
-        out = _write(w, cs, case["opts"])
+        out = _write(w, cs, case["opts"], prev)
     except (RelativizationError, ValueError) as e:
         rec.label("documented-error:" + type(e).__name__)
         return
